@@ -17,27 +17,30 @@ META = {
                  'replayed on the real partition.Subscribe of a one-node server; every recorded step judged by TLC '
                  '(trace validation against the same P_* predicates and the OneActive invariant)',
     'level_text': 'TLC enumerates every interleaving of subscribe requests (sent to either replica, with and without '
-                  'ReadISRReplica, 3 consumer ids incl. the same id again, epochs, valid and invalid positions, open-ended '
-                  'and bounded), subscription closes, subscribe-loop exits (a separate step, arbitrarily late), loop exits '
-                  'RACING with a subscribe (both critical sections in either order), concurrent subscribes and leader '
-                  'changes of the partition within the bounds and proves OneActive and the step predicates on the '
-                  'specification (outside the recorded open finding); the same behaviours are executed on the real code '
-                  'of a two-server cluster (loop exit made a controlled step by cancelling the context, leader change '
-                  'through the real election path, races by parking both contenders on consumersMu and handing the mutex '
-                  'over in FIFO order) and each real state is re-judged by TLC.',
-    'level_note': 'One partition on two servers (real cluster; L/F are server identities, ldr = who leads), one or two '
-                  'groups plus plain subscriptions; requests vary in serving node, ReadISRReplica, group, consumer, epoch, '
-                  'valid/invalid positions and open-ended/bounded stop position. Lock-step steps interleave the critical '
-                  'sections (Subscribe under consumersMu, Close, loop clean-up under consumersMu); Race and Burst steps '
-                  'make two contenders meet at consumersMu (FIFO hand-over convoy: a section that lets go of the mutex and '
-                  're-takes it is overtaken; which schedule results is exploration, the quiescent state is judged). '
-                  'Recorded subscriptions are the real objects. "Active" = not closed and loop still running, counted '
-                  'over both servers. Bounds: quick <= 4 subscriptions / 6 steps / 2 leader changes exhaustive model, '
-                  'transition covers of 5 steps (no race / leader change) and 4 steps (with them) all replayed, 12 steps '
-                  'simulated; thorough 2 groups <= 4 / 6 and 1 group 7 steps with races and leader changes, covers of 6 '
-                  'and 5 steps, 16 steps simulated. Open finding: a member left running on the former leader after a '
-                  'leader change. Not covered: partition object replaced by a repeated resume, the gRPC handler above '
-                  'SubscribeInternal, read-only partitions.',
+                  'ReadISRReplica, through SubscribeInternal or the gRPC handler, 3 consumer ids incl. the same id again, '
+                  'epochs, valid and invalid positions, open-ended and bounded), subscription closes, subscribe-loop exits '
+                  '(a separate step, arbitrarily late), loop exits RACING with a subscribe (both critical sections in '
+                  'either order), concurrent subscribes, leader changes and repeated resume operations of the partition '
+                  'within the bounds and proves OneActive, StreamEnded and the step predicates on the specification '
+                  '(outside the recorded open finding); the same behaviours are executed on the real code of a two-server '
+                  'cluster (loop exit made a controlled step by cancelling the context, leader change through the real '
+                  'election path, resume through the real Raft operation, races by parking both contenders on consumersMu '
+                  'and handing the mutex over in FIFO order) and each real state is re-judged by TLC.',
+    'level_note': 'One partition on two servers (real cluster; L/F are server identities, ldr = who leads; each server\'s '
+                  'CURRENT partition object is re-read after every step), one or two groups plus plain subscriptions; '
+                  'requests vary in serving node, ReadISRReplica, entry point, group, consumer, epoch, valid/invalid '
+                  'positions and open-ended/bounded stop position. Lock-step steps interleave the critical sections; Race '
+                  'and Burst steps make two contenders meet at consumersMu (FIFO hand-over convoy; which schedule results '
+                  'is exploration, the quiescent state is judged). Recorded subscriptions are the real objects; for a '
+                  'subscription made through the gRPC handler the client stream is observed (handler returned / parked in '
+                  'a select that ignores the closed subscription). "Active" = not closed and loop still running, counted '
+                  'over both servers. Bounds: quick <= 4 subscriptions / 5 steps / 2 leader changes or resumes exhaustive '
+                  'model; transition covers of 5 steps (no race / leader change) and 4 steps (with them, with resumes and '
+                  'the gRPC entry point): thorough replays all 20 865 behaviours, quick one behaviour per situation class '
+                  '(all classes of <= 3 steps + a seeded sample of the longer ones, 3 000 of 8 314 classes); 12 steps '
+                  'simulated; thorough: 2 groups + plain <= 4 / 5 and 1 group 6 steps with races, leader changes and '
+                  'resumes, 16 steps simulated. Open finding: a member left running on the former leader after a leader '
+                  'change. Not covered: delivery of messages after a take-over (the log stays empty), read-only partitions.',
     'design_ref': 'DESIGN.md section 6/C13',
 }
 
@@ -95,6 +98,10 @@ def features(b):
             f.add('loop-exit-races-with-subscribe')
         if s['a'] == 'Elect':
             f.add('leader-change')
+        if s['a'] == 'Resume':
+            f.add('resume-repeated')
+        if s['a'] == 'Subscribe' and s['q'].get('via') == 'grpc':
+            f.add('through-grpc-handler')
         if s['a'] == 'Burst':
             f.add('concurrent-subscribes')
         if s['a'] == 'Subscribe' and s['q']['g']:
@@ -110,6 +117,48 @@ def features(b):
     return ','.join(sorted(f)) or '-'
 
 
+def situation(steps):
+    """situation class of a behaviour of a transition cover: the step kinds with what matters for the group protocol
+    (serving node, ReadISRReplica, group / plain, invalid, stop, entry point, epoch relative to the newest member so far,
+    same consumer again, which subscription a close / loop exit / race names) - consumer names and absolute epochs are
+    abstracted away"""
+    out, seen, last = [], set(), None
+    for s in steps:
+        a = s['a']
+        if a == 'Subscribe':
+            q = s['q']
+            rel = 'first' if last is None else ('lt' if q['e'] < last else 'eq' if q['e'] == last else 'gt')
+            out.append(('S', q['n'], q['ris'], bool(q['g']), q['bad'], q['stop'], q.get('via', 'int'), rel,
+                        (q['g'], q['c']) in seen))
+            if q['g'] and not q['bad']:
+                seen.add((q['g'], q['c']))
+                last = q['e'] if last is None else max(last, q['e'])
+        elif a == 'Race':
+            rel = 'first' if last is None else ('lt' if s['e'] < last else 'eq' if s['e'] == last else 'gt')
+            out.append(('R', s['s'], rel, ('g1', s['c']) in seen))
+            seen.add(('g1', s['c']))
+            last = max(last or 0, s['e'])
+        elif a in ('Cancel', 'LoopExit'):
+            out.append((a, s['s']))
+        else:
+            out.append((a,))
+    return tuple(out)
+
+
+def select_cover(cover, rng, total):
+    """quick tier: one behaviour per situation class (chosen by the seed); all classes of up to 3 steps, and as many of
+    the longer ones (seeded sample) as fit into `total`.  Returns (selected, number of classes)."""
+    order = list(cover)
+    rng.shuffle(order)
+    reps = {}
+    for b in order:
+        reps.setdefault(situation(b), b)
+    short = [b for f, b in reps.items() if len(f) <= 3]
+    longer = [b for f, b in reps.items() if len(f) > 3]
+    rng.shuffle(longer)
+    return short + longer[:max(0, total - len(short))], len(reps)
+
+
 def nontrivial(b):
     """a take-over attempt (second subscribe of a group) and a loop exit or close"""
     n = {}
@@ -121,7 +170,7 @@ def nontrivial(b):
         if s['a'] == 'Burst':
             n[s['g']] = n.get(s['g'], 0) + len(s['cs'])
     acts = {s['a'] for s in b['steps']}
-    return max(n.values() or [0]) >= 2 and bool(acts & {'LoopExit', 'Cancel', 'Race', 'Elect'})
+    return max(n.values() or [0]) >= 2 and bool(acts & {'LoopExit', 'Cancel', 'Race', 'Elect', 'Resume'})
 
 
 def execute(behaviours, d, timeout=1200):
@@ -283,13 +332,15 @@ def label_step(lab):
     lab = lab.replace('\\"', '"')
     if lab.strip() == 'MCElect':
         return {'a': 'Elect'}
+    if lab.strip() == 'MCResume':
+        return {'a': 'Resume'}
     m = _lab_re.match(lab.strip())
     if not m:
         raise core.Inconclusive('cannot parse action label %r' % lab)
     name, args = m.group(1), core.tlaval.parse('<<' + m.group(2) + '>>')
     if name == 'MCSubscribe':
         return {'a': 'Subscribe', 'q': {'n': args[0], 'ris': args[1], 'g': args[2], 'c': args[3], 'e': args[4],
-                                        'bad': args[5], 'stop': args[6]}}
+                                        'bad': args[5], 'stop': args[6], 'via': args[7] if len(args) > 7 else 'int'}}
     if name == 'MCBurst':
         return {'a': 'Burst', 'g': args[0], 'cs': [args[1], args[2]], 'e': args[3]}
     if name == 'MCRace':
@@ -315,7 +366,7 @@ def run(rep, tier, seed, replay):
     quick = tier == 'quick'
     # 1. design check: the specification of today's code satisfies C13 within the bounds
     res = core.tlc_check('MC_GroupSub.tla', 'MC_GroupSub.cfg' if quick else 'MC_GroupSub_thorough.cfg',
-                         timeout=3000, coverage=not quick)
+                         timeout=3000)
     rep.add_design('MC_GroupSub', res)
     if not quick:
         # thorough: the wide instance above (2 groups, plain subscriptions, bursts) has no leader change and no race;
@@ -340,18 +391,26 @@ def run(rep, tier, seed, replay):
         directed.append(cx)
         # and a continuation: a stale-epoch consumer arrives afterwards
         directed.append(cx + [{'a': 'Subscribe', 'q': {'n': 'L', 'ris': False, 'g': 'g1', 'c': 'c3', 'e': 1,
-                                                         'bad': False, 'stop': 'none'}},
+                                                         'bad': False, 'stop': 'none', 'via': 'int'}},
                               {'a': 'LoopExit', 's': 2}, {'a': 'Cancel', 's': 3}])
     # 3. every transition of a bounded instance
-    cover, nstates, nedges = edge_cover('MC_GroupSub_cover.cfg' if quick else 'MC_GroupSub_cover_thorough.cfg')
-    #    and of a second one with leader changes and loop exits racing with subscribes
-    cover2, nstates2, nedges2 = edge_cover('MC_GroupSub_cover2.cfg' if quick else 'MC_GroupSub_cover2_thorough.cfg')
+    #    (both covers are replayed completely in the thorough tier; the quick tier replays one behaviour per
+    #    situation class, chosen by the seed: all classes of <= 3 steps and a seeded sample of the longer ones)
+    cover, nstates, nedges = edge_cover('MC_GroupSub_cover.cfg')
+    #    and of a second one with leader changes, repeated resumes, loop exits racing with subscribes and
+    #    subscribes through the gRPC handler
+    cover2, nstates2, nedges2 = edge_cover('MC_GroupSub_cover2.cfg')
+    rep.cov['cover_behaviours_total'] = len(cover) + len(cover2)
+    if quick:
+        cover, ncls = select_cover(cover, rng, 1300)
+        cover2, ncls2 = select_cover(cover2, rng, 1700)
+        rep.cov['cover_situation_classes'] = ncls + ncls2
     cover += cover2
     rep.cov['cover_states'] = nstates + nstates2
     rep.cov['cover_transitions'] = nedges + nedges2
     nstates, nedges = nstates + nstates2, nedges + nedges2
     # 4. deeper random behaviours of the specification (2 groups, plain subscriptions)
-    num = 1500 if quick else 20000
+    num = 600 if quick else 5000
     depth = 12 if quick else 16
     sims = core.tlc_simulate('MC_GroupSub.tla', 'Sim_GroupSub.cfg', num, depth, seed)
     simsteps = [[s['last'] for s in b[1:]] for b in sims if len(b) > 1]
@@ -368,10 +427,11 @@ def run(rep, tier, seed, replay):
     rep.cov['behaviours_transition_cover'] = len(cover)
     rep.cov['behaviours_simulated'] = len(simsteps)
     rep.cov['distinct_nontrivial'] = len({core.sha(b['steps']) for b in behaviours if nontrivial(b)})
-    rep.cov['exhaustive'] = True
+    rep.cov['exhaustive'] = not quick
     rep.cov['rule'] = ('behaviours = (a) counterexamples of the defective clean-up variant, (b) one behaviour per '
-                       'transition of the bounded model MC_GroupSub_cover (spanning tree path + edge; exhaustive: %d '
-                       'states, %d transitions, all replayed), (c) seeded TLC simulation of Sim_GroupSub; non-trivial '
+                       'transition of the bounded models MC_GroupSub_cover and MC_GroupSub_cover2 (spanning tree path + edge: %d '
+                       'states, %d transitions; thorough: all replayed, quick: one per situation class, all classes of <= 3 '
+                       'steps and a seeded sample of the longer ones), (c) seeded TLC simulation of Sim_GroupSub; non-trivial '
                        '= a group receives >= 2 valid subscribes and the behaviour has a close or a loop exit; '
                        'distinct by hash of the step list' % (nstates, nedges))
     rep.cov['samples'] = [behaviours[0], behaviours[len(directed)], behaviours[-1]]
